@@ -18,8 +18,8 @@ CHECKS = {
     ),
     "C02": dict(
         engine="E1-bfs", category="model_checking",
-        text="Every history of at most 3 (quick) / 4 (thorough) public DesignSpace mutators and cache-filling queries from 5 start spaces is executed on the real class; after every transition the view-consistency and normalization invariants I1-I7 are evaluated on a deep copy.  The implementation itself is the explored system, the reference model is the oracle (independent affine formulas).",
-        note="Value alphabet: 6 variable definitions (3 tables rotated by VERIF_SEED); at most 3 variables alive; depth bound as reported in the evidence; states are merged on a canonical form that includes the name-mangled caches.",
+        text="Every history of at most 3 (quick) / 4 (thorough) public DesignSpace mutators and cache-filling queries (including calls the class must refuse) from 6 start spaces is executed on the real class; after every transition the view-consistency and normalization invariants I1-I7 are evaluated on a deep copy.  The implementation itself is the explored system, the reference model is the oracle (independent affine formulas).",
+        note="Value alphabet: 7 variable definitions of sizes 1, 2 and 3 (3 tables rotated by VERIF_SEED), filter_dimensions with even, uneven and non-contiguous selections; at most 3 variables alive; depth bound as reported in the evidence; states are merged on a canonical form that includes the name-mangled caches.",
         technique="explicit-state BFS over operation histories of the real object (bounded depth), invariant checked in every state",
     ),
     "C03": dict(
@@ -42,13 +42,13 @@ CHECKS = {
     ),
     "C05": dict(
         engine="E1-bfs", category="model_checking",
-        text="(H) BFS over every history (depth 3/4; 2/3 for the shared-memory and HDF5 caches) of execute with fresh arrays / execute through caller arrays modified in place / execute through the input arrays found in the returned data, modified in place / defaults-only / a self-coupled output fed back as the next input / linearize(all|subset) / reopen on harness disciplines with known ground truth and body-run counters (dense, sparse-Jacobian incl. empty trailing columns, self-coupled, and self-coupled with a body updating its input in place); every stored entry must hold the outputs and the Jacobian of its own inputs, for no cache, SimpleCache, MemoryFullCache (shared or not) and HDF5Cache (nested node), exact and tolerance-based; (S) every history of <= 3 operations over {execute(d), execute(1.07d), linearize(d), linearize(1.07d)} on every shipped discipline the factory builds without arguments, with a full and a simple cache, against an uncached twin running the same history.",
+        text="(H) BFS over every history (depth 3/4; 2/3 for the shared-memory and HDF5 caches) of execute with fresh arrays / execute through caller arrays modified in place / execute through the input arrays found in the returned data, modified in place / defaults-only / a self-coupled output fed back as the next input / linearize(all|subset), also through the caller's reused arrays / reopen on harness disciplines with known ground truth and body-run counters (dense, sparse-Jacobian incl. empty trailing columns, self-coupled, self-coupled with a body updating its input in place, and finite-difference linearization whose perturbed points pass through the cache); every stored entry must hold the outputs and the Jacobian of its own inputs, for no cache, SimpleCache, MemoryFullCache (shared or not) and HDF5Cache (nested node), exact and tolerance-based; (S) every history of <= 3 operations over {execute(d), execute(1.07d), linearize(d), linearize(1.07d)} on every shipped discipline the factory builds without arguments, with a full and a simple cache, against an uncached twin running the same history; (K) every history of <= 3 (thorough 4) executions over 4 input forms of which 3 have identical bytes, hence equal hashes (flat, column, one complex number), on the exact-matching caches.",
         note="3 input values (one within the tolerance of another) + defaults, 3 alphabets rotated by VERIF_SEED; canonical state = cache entries + local data + Jacobian keys + differentiated I/O + the caller's reused arrays + run counters; large topology-optimization disciplines are limited to depth 1/2.",
         technique="explicit-state BFS over operation histories of real disciplines and caches, ground-truth / uncached-twin oracle in every state",
     ),
     "C06": dict(
         engine="E2-product", category="exploration",
-        text="Deviation-bounded exhaustive enumeration over generated contractive coupled systems - every strongly connected labelled digraph on 2-3 disciplines x every self-loop subset for the plain solvers, every digraph with a coupling for MDAJacobi, all 16 / 512 digraphs (several SCCs, self-coupled, weakly coupled, acyclic) for MDAChain; sizes 1-2; linear, 0.3 sin, 0.2 tanh and small-gain quadratic maps with an asserted contraction constant q <= 0.5 - x MDA class (Jacobi, Gauss-Seidel, Newton-Raphson, quasi-Newton with 9 SciPy methods, GS-Newton, Sequential, MDAChain x 5 inner MDAs) x acceleration (6 methods) x over-relaxation {0.8, 1, 1.2} x 6 residual scalings x warm start x every listing permutation x serial / threads / processes x 3 input points x executed once and twice; oracles derived from q: re-executing every discipline on the returned data reproduces it, agreement with numpy.linalg.solve (or the harness's Banach iteration), all configurations agree through the common reference, and a run that does not report convergence where theory gives it is a violation.",
+        text="Deviation-bounded exhaustive enumeration over generated contractive coupled systems - every strongly connected labelled digraph on 2-3 disciplines x every self-loop subset for the plain solvers, every digraph with a coupling for MDAJacobi, all 16 / 512 digraphs (several SCCs, self-coupled, weakly coupled, acyclic) for MDAChain; sizes 1-2; linear, 0.3 sin, 0.2 tanh and small-gain quadratic maps with an asserted contraction constant q <= 0.5 - x MDA class (Jacobi, Gauss-Seidel, Newton-Raphson, quasi-Newton with 9 SciPy methods, GS-Newton, Sequential, MDAChain x 5 inner MDAs) x acceleration (6 methods) x over-relaxation {0.8, 1, 1.2} x 6 residual scalings x warm start x every listing permutation x serial / threads / processes x 3 input points x executed once and twice x user-given sub coupling structures for MDAChain x MDASequential sequences whose sub-MDAs have their own (looser / tighter) tolerances; oracles derived from q: re-executing every discipline on the returned data reproduces it, agreement with numpy.linalg.solve (or the harness's Banach iteration), all configurations agree through the common reference, and a run that does not report convergence where theory gives it is a violation.",
         note="quick: <= 1 deviation on n = 2, defaults on every labelled n = 3 graph, all permutations on class representatives, plus the acceleration x relaxation product; thorough: <= 2 deviations (n = 3 on isomorphism-class representatives); 4 value alphabets by VERIF_SEED; quasi-Newton runs are held to SciPy's documented stopping rules; reduced-budget phases are counted, nothing is claimed about their data; Aitken + relaxation is a registered known finding.",
         technique="deviation-bounded exhaustive enumeration of coupling graphs x MDA classes x setting vectors, closed-form / contraction-derived oracle",
     ),
@@ -126,7 +126,7 @@ CHECKS = {
     ),
     "C13": dict(
         engine="E3-sched+E5-tlc", category="model_checking",
-        text="(A) every schedule - all of them for N<=2 tasks on one worker, deviation-bounded otherwise - of the real thread back-end of CallableParallelExecution under a cooperative scheduler that owns every queue/thread/lock operation, for task counts 0-3(4), worker counts 1-3, all failing subsets and re-raise settings, with the positional / exactly-once / confinement oracle; (M) TLC enumerates the complete state graph of models/WorkerPool.tla per configuration, every terminal behaviour is replayed on the real thread back-end by guided scheduling and every completion order is forced on the real process back-end through gates; every trace the code produces must be a model behaviour and for the completely explored configurations the two trace sets must be equal; (B) under all schedules with <= d deviations: MDOParallelChain vs MDOChain (data and Jacobians), MDOParallelChain(use_deep_copy=True) with a discipline modifying its own copy of the inputs in place, DiscParallelExecution / DiscParallelLinearization with failing disciplines (positional slots), two disciplines sharing a MemoryFullCache under parallel execution and under parallel linearization (virtual re-entrant lock = scheduling points; every entry must hold the outputs and the Jacobian of its own inputs); under every forced completion order of the process back-end: parallel finite differences vs serial, parallel DOE vs sequential DOE (database, and what the user callbacks receive, with and without eval_jac, with failing samples).",
+        text="(A) every schedule - all of them for N<=2 tasks on one worker, deviation-bounded otherwise - of the real thread back-end of CallableParallelExecution under a cooperative scheduler that owns every queue/thread/lock operation, for task counts 0-3(4), worker counts 1-3, all failing subsets and re-raise settings, with the positional / exactly-once / confinement oracle; (M) TLC enumerates the complete state graph of models/WorkerPool.tla per configuration, every terminal behaviour is replayed on the real thread back-end by guided scheduling and every completion order is forced on the real process back-end through gates; every trace the code produces must be a model behaviour and for the completely explored configurations the two trace sets must be equal; (B) under all schedules with <= d deviations: MDOParallelChain vs MDOChain (data and Jacobians), MDOParallelChain(use_deep_copy=True) with a discipline modifying its own copy of the inputs in place, DiscParallelExecution / DiscParallelLinearization with failing disciplines (positional slots), two disciplines sharing a MemoryFullCache under parallel execution and under parallel linearization (virtual re-entrant lock = scheduling points; every entry must hold the outputs and the Jacobian of its own inputs); under every forced completion order of the process back-end: parallel finite differences vs serial, parallel DOE vs sequential DOE (database, and what the user callbacks receive, with and without eval_jac, with failing samples); (B8) every history of <= 2 (thorough 3) f_gradient / compute_optimal_step calls with changing keyword arguments and component selections on the three gradient approximators, process-parallel twin vs sequential twin; (B9) every history of <= 2 (3) executions with an optional input given or omitted on DiscParallelExecution and MDOParallelChain, threads and processes: returned data and the disciplines' own data vs sequential twins.",
         note="Scheduling points are queue, thread and lock operations (plain attribute accesses between them are not interleaved); the process back-end is covered through forced completion orders, not OS-level interleavings; deviation bounds and TLC state counts are reported in the evidence.",
         technique="stateless schedule exploration of the real code under a controlled scheduler + TLC explicit-state model checking with every model behaviour replayed on the implementation",
     ),
